@@ -70,6 +70,35 @@ pub fn case_grid(va: &dyn crate::api::VariantApi, bg: &[u8], c: u8, l: u8, st: &
             }
         }
     }
+    // when serde is compiled in, the compact form delivers the same byte array through a visitor:
+    // it is still "a byte array" and the two gates apply to it (every bytes-like visitor entry)
+    for (k, ev) in [
+        crate::mockserde::DeEvent::Bytes(b.clone()),
+        crate::mockserde::DeEvent::BorrowedBytes(b.clone()),
+        crate::mockserde::DeEvent::ByteBuf(b.clone()),
+    ]
+    .into_iter()
+    .enumerate()
+    {
+        if let Some(r) = va.mock_de(&crate::mockserde::DeScript { human: false, event: ev }) {
+            st.eval();
+            match r {
+                Ok(h) => {
+                    if !errs.is_empty() {
+                        return Err(format!("{}: strict build: the compact serde form (bytes entry #{}) accepted {} although {:?} applies", v.name, k, hex(&b), errs));
+                    }
+                    if store_vec(h.as_ref(), v.size())? != b {
+                        return Err(format!("{}: strict build: compact serde form changed {}", v.name, hex(&b)));
+                    }
+                }
+                Err(e) => {
+                    if errs.is_empty() {
+                        return Err(format!("{}: strict build: the compact serde form (bytes entry #{}) rejected the acceptable {}: {}", v.name, k, hex(&b), e));
+                    }
+                }
+            }
+        }
+    }
     st.class(match errs.len() {
         0 => "grid: valid",
         1 => "grid: one gate fails",
